@@ -211,9 +211,9 @@ Definition gen_match (s : list N) : err pexp :=
         | Some rec =>
           if has (rec_props rec) ptype_Ascii then
             if has (rec_props rec) ptype_Alphabetic then
-              match tocasefold ucd b with
-              | Some f => OK (PInstr (IMatchSet (sort_and_optimize (push_rune (push_rune rs_empty b) f))))
-              | None => Err e_table
+              match tolower ucd b, toupper ucd b with
+              | Some l, Some u => OK (PInstr (IMatchSet (sort_and_optimize (push_rune (push_rune (push_rune rs_empty b) l) u))))
+              | _, _ => Err e_table
               end
             else OK (PInstr (IMatchOctet b))
           else match utf8_tocasefold ucd s with Some f => OK (PInstr (IMatchCf f)) | None => Err e_table end
